@@ -32,12 +32,21 @@ func c10Datagram(sh string, i int) []byte {
 		}
 	}
 	if strings.HasPrefix(sh, "sized-") {
-		// a well-formed message whose datagram is exactly n bytes long
+		// a well-formed message whose datagram is exactly n bytes long: most of it body, the rest a padding header
 		var n int
 		fmt.Sscanf(sh, "sized-%d", &n)
-		base := len(mk(nil, "").Render())
-		for l := n - base; l >= 0 && l >= n-base-6; l-- {
-			if b := mk(fill(l, "SIZED"), "").Render(); len(b) == n {
+		m := mk(nil, "")
+		m.Hdrs = append(m.Hdrs[:len(m.Hdrs)-1], WHdr{"X-Pad", ""}, m.Hdrs[len(m.Hdrs)-1])
+		base := len(m.Render())
+		l := n - base - 40
+		if l < 0 {
+			l = 0
+		}
+		m = mk(fill(l, "SIZED"), "")
+		m.Hdrs = append(m.Hdrs[:len(m.Hdrs)-1], WHdr{"X-Pad", ""}, m.Hdrs[len(m.Hdrs)-1])
+		if pad := n - len(m.Render()); pad >= 0 {
+			m.Hdrs[len(m.Hdrs)-2].Value = strings.Repeat("p", pad)
+			if b := m.Render(); len(b) == n {
 				return b
 			}
 		}
